@@ -29,7 +29,9 @@ def certFast {p d : Nat} (hd : 0 < d) (hp : 0 < p) (inf : Option (Fin p)) (A : M
   certGC A x y (fun r => uArr[r.val]!) (fun c => vArr[c.val]!)
 
 /-- parity matrix of a family as the driver's oracle uses it -/
-def famMatrix (fam : String) (d p : Nat) : Except String (Mat GF256 p d) :=
+def famMatrix (fam0 : String) (d p : Nat) : Except String (Mat GF256 p d) :=
+  -- `a+b+c`: several matrix options in this order; every matrix option resets the others, so the LAST one decides
+  let fam := (((fam0.splitOn "+").filter (· ≠ "default")).getLast?).getD "default"   -- "default" sets no option
   if hd : d = 0 then .error "InvShardNum" else
   if hp : p = 0 then .error "noparity" else
   if d + p > 256 then .error "MaxShardNum" else
@@ -52,6 +54,13 @@ def famMatrix (fam : String) (d p : Nat) : Except String (Mat GF256 p d) :=
         let rows : Array ByteArray := Array.ofFn fun r : Fin p => fillBytes (UInt64.ofNat seed) (1000 + r.val) d
         .ok (Mat.ofFn fun r c => gfOfByte (rows[r.val]!.get! c.val))
       | none => .error "badfam"
+    else if fam.startsWith "sparse:" then
+      -- a custom matrix with the coefficients below 128 replaced by zero
+      match (fam.drop 7).toString.toNat? with
+      | some seed =>
+        let rows : Array ByteArray := Array.ofFn fun r : Fin p => fillBytes (UInt64.ofNat seed) (1000 + r.val) d
+        .ok (Mat.ofFn fun r c => let b := rows[r.val]!.get! c.val; if b < 128 then 0 else gfOfByte b)
+      | none => .error "badfam"
     else .error "badfam"
 
 structure GenOut where
@@ -59,7 +68,9 @@ structure GenOut where
   cert : String
   l0 : String
 
-def genMatrix (fam : String) (d p : Nat) : Except String GenOut :=
+def genMatrix (fam0 : String) (d p : Nat) : Except String GenOut :=
+  -- `a+b+c`: several matrix options; the last matrix option decides (see `famMatrix`)
+  let fam := if fam0.contains '+' then (((fam0.splitOn "+").filter (· ≠ "default")).getLast?).getD "default" else fam0
   if hd : d = 0 then .error "InvShardNum" else
   if hp : p = 0 then .error "noparity" else
   if d + p > 256 then .error "MaxShardNum" else
@@ -636,6 +647,7 @@ where stepOp (toks : List String) : String :=
   | "concread" :: _ => "ok"
   | "concver" :: _ => "ok"
   | "concstream" :: _ => "ok"
+  | "concstreamf" :: _ => "ok"
   | "sencode" :: args => opSEncode args
   | "sverify" :: args => opSVerify args
   | "srecon" :: args => opSRecon args
